@@ -25,7 +25,7 @@ type c16case struct {
 }
 
 func runC16(c *Check, rng *rand.Rand) {
-	c.Rule = fmt.Sprintf("fault enumeration with timeout=%dms: every non-empty subset of stalled positions in pipelines of length <= L x {backend answers after 3T, only after the verdict} x {single-key, split request with every non-empty subset of its fragments stalled}; oracle: exactly one reply per request in position, an error at stalled positions, the normal reply elsewhere (other nodes), a follow-up request on the same connection round-trips, the late backend reply never reaches a client; distinct = (length, stalled subset, variant)", c16T)
+	c.Rule = fmt.Sprintf("fault enumeration with timeout=%dms: every non-empty subset of stalled positions in pipelines of length <= L x {backend answers after 3T, only after the verdict} x {single-key, split request with every non-empty subset of its fragments stalled}; oracle: exactly one reply per request in position, an error at stalled positions, the normal reply elsewhere (other nodes), a follow-up request on the same connection round-trips, the late backend reply never reaches a client; pipelines with 1025-2600 answered requests behind a head that times out; distinct = (length, stalled subset, variant)", c16T)
 	c.Assumptions = []string{
 		"bounded-progress restatement: verdict at T + 6 s (nominal T + ~1.2 s: the timeout scan runs after event-loop rounds that had events; the 1 s ticker guarantees one)",
 		"requests behind a stalled one on the same node are head-of-line blocked and may legitimately time out too: for them only 'exactly one reply, normal or error, in position' is asserted",
@@ -92,6 +92,53 @@ func runC16(c *Check, rng *rand.Rand) {
 		}(l)
 	}
 	wg.Wait()
+	// more completed replies behind the timed-out head of a pipeline than one vectored
+	// write takes (1024): the timeout is the only event that can flush them
+	for k := 0; k < c.Pick(2, 10) && env.P.Alive(); k++ {
+		n := []int{1026, 1100 + rng.Intn(1500)}[k%2]
+		cl, p, gate, err := deepPipeline(env, script, rng, n)
+		must(err, "deep pipeline")
+		ok := cl.WaitReplies(n, time.Duration(c16T)*time.Millisecond+8*time.Second)
+		s := cl.Snapshot()
+		c.Eval(1)
+		c.Distinct(fmt.Sprintf("deep-behind-timed-out-head/%d", n))
+		wit := map[string]interface{}{"requests": n, "replies": len(s.Replies), "shape": "first request never answered by its node, all later ones answered at once by other nodes"}
+		switch {
+		case !env.P.Alive():
+			c.Violate(Violation{Class: "proxy-died", Shape: "deep-pipeline-behind-timed-out-head", Detail: env.P.PanicLine(), Witness: wit})
+		case !ok:
+			c.Violate(Violation{Class: "missing-replies-after-timeout", Shape: "deep-pipeline-behind-timed-out-head",
+				Detail: fmt.Sprintf("%d of %d replies %d ms + 8 s after the pipeline was sent (its head timed out, everything behind it had been answered long before)", len(s.Replies), n, c16T), Witness: wit})
+		case s.Replies[0].Val.Kind != '-':
+			c.Violate(Violation{Class: "stalled-request-not-answered-with-error", Shape: "deep-pipeline-behind-timed-out-head", Detail: "the head got " + s.Replies[0].Val.String(), Witness: wit})
+		default:
+			bad := -1
+			for i := 1; i < n; i++ {
+				if !matches(p[i], s.Replies[i].Val) {
+					bad = i
+					break
+				}
+			}
+			if bad >= 0 {
+				c.Violate(Violation{Class: "wrong-reply-behind-timed-out-request", Shape: "deep-pipeline-behind-timed-out-head", Detail: fmt.Sprintf("position %d: expected %s got %s", bad, Q(p[bad].Expect), s.Replies[bad].Val.String()), Witness: wit})
+			} else {
+				c.Count("deep_pipelines_behind_timed_out_head_verified", 1)
+			}
+		}
+		gate.Open() // the late reply
+		env.Barrier()
+		fk := Key(rng.Intn(16384), newToken("fu"))
+		cl.Send(Req("GET", fk))
+		if ok && env.P.Alive() {
+			if !cl.WaitReplies(n+1, 5*time.Second) || !bytes.Equal(cl.Snapshot().Replies[n].Val.Raw, BulkReply([]byte("v:"+fk))) {
+				c.Violate(Violation{Class: "connection-unusable-after-timeout", Shape: "deep-pipeline-behind-timed-out-head", Detail: "the follow-up request was not answered normally", Witness: wit})
+			}
+		}
+		cl.Close()
+		for _, r := range p {
+			script.Forget(r.Keys...)
+		}
+	}
 	// a timed-out request whose node is lost later, while other requests are in flight
 	c15compound(c, rng, c16T)
 	c.MinEvals = 20
